@@ -48,8 +48,8 @@ def gen_ctor(rng, typ="stopping"):
     c = {"type": typ, "mode": mode}
     if kind == "rf":
         c["grace_period"] = rng.choice([1, 1, 2, 3])
-        c["reduction_factor"] = rng.choice(["2", "3", "4", "5/2"])
-        c["max_t"] = rng.choice([c["grace_period"] + 1, 9, 16, 27, 30, 81])
+        c["reduction_factor"] = rng.choice(["2", "3", "4", "5/2", "5/2", "7/2", "27/10", "9/4", "7/3"])
+        c["max_t"] = rng.choice([c["grace_period"] + 1, 9, 16, 27, 30, 81, 81, 200])
         if c["max_t"] <= c["grace_period"]:
             c["max_t"] = c["grace_period"] + 3
     elif kind == "inc":
